@@ -108,6 +108,17 @@ func (r *ruler) helperRules() {
 		}
 		return nil, true
 	}
+	in.Hooks.Append = func(in *absint.Interp, sl absint.Val, elems absint.Val, site ssa.Instruction) (absint.Val, bool) {
+		// the free list kept in a slice: appending the context is the push
+		var ks []string
+		if es, ok := elems.(*absint.Slice); ok {
+			for _, e := range es.Elems() {
+				ks = append(ks, absint.Key(e))
+			}
+		}
+		evs = append(evs, "PushBack("+absint.Key(sl)+", "+strings.Join(ks, ", ")+")")
+		return &absint.Sym{Op: "append", Args: []absint.Val{sl, elems}, T: fn.Params[1].Type()}, true
+	}
 	_, end := in.Run(fn, []absint.Val{&absint.Ptr{Cell: cell}, absint.NewVar("FREELIST", fn.Params[1].Type())})
 	key := "vm.deleteContext / frees the subtree, empties the child table, then recycles"
 	iFor, iClear, iPush := -1, -1, -1
@@ -197,6 +208,14 @@ func (r *ruler) releaseSites() {
 						bad = append(bad, p.Pos(ins.Pos())+": "+p.FuncKey(fn)+" releases a context and can be reached without going through the run loop")
 					}
 					continue
+				}
+				if bi, ok := cc.Value.(*ssa.Builtin); ok && bi.Name() == "append" && len(cc.Args) == 2 {
+					if st, ok := cc.Args[0].Type().Underlying().(*types.Slice); ok && types.Identical(st.Elem(), ctxPtrT) {
+						nPush++
+						if !within(fn, del) {
+							bad = append(bad, p.Pos(ins.Pos())+": "+p.FuncKey(fn)+" appends a context to a list itself")
+						}
+					}
 				}
 				if callee != nil && callee.Pkg != nil && callee.Pkg.Pkg.Path() == "container/list" && (callee.Name() == "PushFront" || callee.Name() == "PushBack" || callee.Name() == "InsertBefore" || callee.Name() == "InsertAfter") {
 					for _, a := range cc.Args {
